@@ -92,6 +92,13 @@ impl PkeSealingVersion for V1 {
         let c = rsa_encrypt(&sealing_key.0, &BigUint::from_bytes_be(&r))
             .map_err(|_| PasetoError::CryptoError)?
             .to_bytes_be();
+        // c is a fixed-width 4096-bit integer: restore the leading zero bytes that
+        // `to_bytes_be` strips.
+        let c = {
+            let mut padded = vec![0u8; 512usize.saturating_sub(c.len())];
+            padded.extend_from_slice(&c);
+            padded
+        };
 
         let k = sha2::Sha384::digest(&c);
 
